@@ -73,12 +73,21 @@ PROPS = {
         'explanation': 'precedence comparison and stack discipline of the row parser',
     },
     'C07': {
-        'verus': ['U07c'],
+        'verus': ['U07c', 'U10c'],
         'kani': ['U20a', 'U07b'],
         'technique': 'Kani/CBMC over every char for the three places that add or remove the dots-7-8 highlight (highlight, unhighlight, add_dots_to_braille_char) on the real crate + Verus postcondition on the real guard of highlight_braille_string (style Off or empty input returns the braille unchanged)',
         'level_text': 'complete proof, for every char, that highlighting maps braille cells to braille cells (exactly dots 7-8 added/removed, valid scalar values) and never turns a passed-through char into a cell or the reverse, and unbounded proof that with highlighting Off the braille string is returned untouched',
         'level_note': 'not decided: that rule files emit only letters of the indicator alphabet, the indicator tables vs REPLACE_INDICATORS classes (surveyed by hand: in sync for Nemeth; the other codes have a range typo `.-—` in the class that makes a table/class contract meaningless), space trimming and all regex clean-up chains, non-emptiness',
         'not_covered': ['*_INDICATOR_REPLACEMENTS tables against the REPLACE_INDICATORS character classes (regex)', 'nemeth_cleanup/ueb_cleanup/... regex chains', 'rule files and Unicode tables emit only indicator letters and cells', 'text codes LaTeX/ASCIIMath'],
         'explanation': 'highlight dots never leak or corrupt the alphabet; Off means untouched',
+    },
+    'C10': {
+        'verus': ['U10a', 'U10c'],
+        'kani': [],
+        'technique': 'Verus cache-coherence invariants and history-independence postconditions on the real bodies (regions) of CanonicalizeContextPatternsCache::get and of the lazy full-Unicode-table reload in replace_single_char, with the RefCell/thread-local state made an explicit parameter',
+        'level_text': 'unbounded proof, for every prior cache state satisfying the coherence invariant, that the separator patterns handed to canonicalization are the ones built from the CURRENT BlockSeparators/DecimalSeparators and that the full Unicode table in use after the lazy-load step is the one the CURRENT preferences select (history independence of these two caches)',
+        'level_note': 'assumed: CanonicalizeContextPatterns::new is a function of the two preference strings; FilesAndTimes::is_file_up_to_date answers true only for the recorded path; read_unicode loads the file the current preferences select; thread-local/RefCell access abstracted to &mut (R12). Not decided: rule tables, definition sets and short Unicode tables (reload decisions in read_files use file time stamps), data-nemeth-frac-level cached on the live tree, thread isolation, "switching a preference away and back restores byte-identical output" as a whole',
+        'not_covered': ['SpeechRules::read_files / definitions reload (time stamps, file system)', 'MyXPath::new compile cache', 'attributes cached on the live MathML tree during brailling', 'threads'],
+        'explanation': 'two caches proved history independent',
     },
 }
